@@ -464,6 +464,8 @@ def method(eng: Engine, e: ast.Call, st: State, recv: V, m: str, args: List[V], 
             raise Unsupported("str.join", e)
         if m == "__repr__":
             return [(st, VStr(repr(recv.s)))]
+    if isinstance(recv, VScalar) and recv.ty.kind == "int" and m == "__repr__":
+        return builtin(eng, e, st, "str", [recv], {})
     if isinstance(recv, VScalar) and recv.ty.kind in ("atom", "oatom") and m in ("__eq__",):
         r = veq_safe(eng, recv, args[0], st, e)
         return [(st, eng.vbool(r))]
